@@ -46,6 +46,10 @@ func genC06(c *Ctx) *Plan {
 		}
 		p.Ops = append(p.Ops, Op{At: at, Kind: "confirm", S: names[r.intn(len(names))], A: int64(r.pick(0, 0, 0, 0, 1, -1))})
 	}
+	// stale claims (older incarnation) of every kind: must not touch the running timer
+	for i := 0; i < r.pick(0, 0, 1, 2); i++ {
+		p.Ops = append(p.Ops, Op{At: 1 + r.i64n(int64(smax)), Kind: "stale", S: []string{"dead", "alive", "leave", "suspect"}[r.intn(4)], S2: names[2+r.intn(4)], A: int64(r.pick(1, 2))})
+	}
 	if r.chance(0.35) {
 		at := int64(r.f64() * smax)
 		switch r.intn(3) {
@@ -200,6 +204,22 @@ func execC06(c *Ctx) {
 					c.Reach("resuspected")
 				}
 			}
+		case "stale":
+			if inc < uint32(op.A)+1 {
+				break
+			}
+			sinc := inc - uint32(op.A)
+			switch op.S {
+			case "dead":
+				m.deadNode(&dead{Incarnation: sinc, Node: "px", From: op.S2})
+			case "leave":
+				m.deadNode(&dead{Incarnation: sinc, Node: "px", From: "px"})
+			case "alive":
+				m.aliveNode(&alive{Incarnation: sinc, Node: "px", Addr: net.IPv4(10, 0, 1, 1).To4(), Port: 7946, Vsn: c01Vsn(0)}, nil, false)
+			case "suspect":
+				m.suspectNode(&suspect{Incarnation: sinc, Node: "px", From: op.S2})
+			}
+			c.Reach("stale_claim_during_suspicion")
 		case "refute":
 			inc++
 			m.aliveNode(&alive{Incarnation: inc, Node: "px", Addr: net.IPv4(10, 0, 1, 1).To4(), Port: 7946, Vsn: c01Vsn(0)}, nil, false)
